@@ -538,7 +538,86 @@ func c01Processor(c *Ctx) {
 	}
 }
 
+// scope rules: every scope definition set x every requirement list ---------------
+
+func c01Scopes(c *Ctx) {
+	paths := []string{"", "s", "s.t", "s.t.u", "x"}
+	reqs := []string{"", "s", "s.t", "s.t.u", "s.x", "s.t.x", "x", "y"}
+	n := 1
+	for range paths {
+		n *= 3
+	}
+	for code := 0; code < n; code++ {
+		if c.Stopped() {
+			return
+		}
+		if !c.Mine() {
+			continue
+		}
+		defs := map[string]bool{}
+		x := code
+		for _, p := range paths {
+			switch x % 3 {
+			case 1:
+				defs[p] = true
+			case 2:
+				defs[p] = false
+			}
+			x /= 3
+		}
+		rs := engine.NewRuleScope(defs)
+		for i, r1 := range reqs {
+			for _, r2 := range reqs[i:] {
+				req := []string{r1}
+				if r2 != r1 {
+					req = append(req, r2)
+				}
+				input := fmt.Sprintf("cascade scope %v, rule requires %v", defs, req)
+				c.Begin(input)
+				want := true
+				for _, r := range req {
+					if !refScopeAllowed(defs, r) {
+						want = false
+					}
+				}
+				var got bool
+				if pk, pm := Guard(func() { got = rs.IsAllowedAll(req) }); pk != "" {
+					c.Viol("scope-"+pk, input+": "+pm, input)
+					continue
+				}
+				c.Nontrivial()
+				if got != want {
+					c.Viol("scope-decision-differs", fmt.Sprintf("%s: IsAllowedAll = %v, the most specific defined prefix of every required path gives %v", input, got, want), input)
+					continue
+				}
+				if want {
+					c.Outcome("in-scope")
+				} else {
+					c.Outcome("out-of-scope")
+				}
+				// the same through the processor: the rule fires iff in scope
+				if r2 == r1 && code%7 == 0 {
+					fired := 0
+					proc := engine.NewProcessor(1)
+					proc.AddRule(&engine.Rule{Name: "r", KindMatch: []string{"a"}, ScopeMatch: req,
+						Action: func(p engine.Processor, m engine.Monitor, e *engine.Event, tid uint64) error { fired++; return nil }})
+					proc.Start()
+					proc.AddEventAndWait(engine.NewEvent("e", []string{"a"}, nil), proc.NewRootMonitor(nil, engine.NewRuleScope(defs)))
+					proc.Finish()
+					if (fired == 1) != want || fired > 1 {
+						c.Viol("scope-filter-in-processor-differs", fmt.Sprintf("%s: rule fired %d time(s), expected in scope = %v", input, fired, want), input)
+					}
+				}
+			}
+		}
+	}
+}
+
 func init() {
+	register(&Part{Prop: "C01", Name: "scope-rules", Quick: 8, Thor: 8,
+		Desc: "every cascade scope definition set over the paths {\"\", s, s.t, s.t.u, x} (each absent / allowed / denied: 243 sets, including sets with flagless intermediate nodes) x every requirement list of one or two paths over {\"\", s, s.t, s.t.u, s.x, s.t.x, x, y} through RuleScope.IsAllowedAll, and a seventh of them through the real processor",
+		Rule: "full product; every case non-trivial; reference: the flag of the most specific explicitly defined prefix of each required path decides, default denied",
+		Run:  func(c *Ctx) { c01Scopes(c); c.Sample("cascade scope map[s:true s.t.u:false], rule requires [s.t]") }})
 	register(&Part{Prop: "C01", Name: "rule-index", Quick: 16, Thor: 32,
 		Desc: "RuleIndex.Match / IsTriggering: single rules with every kind pattern over {a, b, *} of length <= 2 (thorough 3) x every state pattern over keys {k, l} with required values {absent, NULL, 1, \"x\", regexp ^x, [1], {\"a\":1}}; rules with two kind patterns (overlapping, duplicate); pairs of rules sharing a leaf with all hashable state-pattern pairs; pairs with different patterns; against every event kind of length 1-3 over {a, b} x 64 event states",
 		Rule: "odometer over rule specs x events; non-trivial = at least one rule matches by the independent reference matcher",
